@@ -1,9 +1,10 @@
 package main
 
-// Last known form of every codec guard (written once from a run on the pinned tree).
-// Used only when an anchor is no longer found in the source: the translator still reports the
-// broken tie (the check then fails), but the model keeps compiling with the last known guard so
-// that the correspondence run and the oracle can still look for a concrete failing input.
+// Last known form of every codec guard (written from a run on /repo after the fix commits
+// 8f1f086, 8ebb19d, 3dc8984).  Used only when an anchor is no longer found in the source: the
+// translator still reports the broken tie (the check then fails), but the model keeps compiling
+// with the last known guard so that the correspondence run and the oracle can still look for a
+// concrete failing input.
 
 var codecDefaults = map[string]string{
 	"g_MsgLabelEvent": `Definition g_MsgLabelEvent : str :=
@@ -37,9 +38,9 @@ var codecDefaults = map[string]string{
 	"g_MachineReadablePrefixError": `Definition g_MachineReadablePrefixError : str :=
   ([101; 114; 114; 111; 114; 58; 32]%N : str).`,
 	"g_client_msg_regexp": `Definition g_client_msg_regexp : str :=
-  ([94; 92; 91; 92; 115; 42; 34; 40; 92; 119; 42; 41; 34]%N : str).`,
+  ([94; 92; 115; 42; 92; 91; 92; 115; 42; 34; 40; 92; 119; 42; 41; 34]%N : str).`,
 	"g_naddr_split_n": `Definition g_naddr_split_n : Z :=
-  (-1).`,
+  (3).`,
 	"g_naddr_sep": `Definition g_naddr_sep : N :=
   (58)%N.`,
 	"g_cevent_arity_bad": `Definition g_cevent_arity_bad (len : Z) : bool :=
